@@ -86,6 +86,9 @@ type OpSpec struct {
 	// also on another connection (Session.Prior)
 	ShareKey string   `json:"share_key,omitempty"`
 	FailedOp []string `json:"failed_when_op,omitempty"`
+	// FailedOpEmpty: the operation is given an empty (non-nil) list of failure strings -- the
+	// driver's list stays in force
+	FailedOpEmpty bool `json:"failed_when_op_empty,omitempty"`
 	Complete []string `json:"complete_patterns,omitempty"`
 	Interim  []string `json:"interim_prompt_patterns,omitempty"`
 	OptSeed  uint64   `json:"opt_seed,omitempty"` // != 0: the option list is shuffled with this seed
@@ -221,6 +224,18 @@ type OpRec struct {
 	CbFired        []string
 }
 
+// platInput renders the login secret of a platform definition: an all-digit secret goes into the
+// definition unquoted (a PIN), as a careless definition file would have it.
+func platInput(s string) interface{} {
+	for _, c := range s {
+		if c < '0' || c > '9' {
+			return s
+		}
+	}
+
+	return json.Number(s)
+}
+
 var errCallbackFailed = errors.New("the callback function failed (on purpose)")
 
 // ErrClass maps an error to the library's error class names.
@@ -352,6 +367,9 @@ func opOpts(sc *Session, op *OpSpec) []util.Option {
 	}
 	if op.Stop {
 		o = append(o, opoptions.WithStopOnFailed())
+	}
+	if op.FailedOpEmpty {
+		o = append(o, opoptions.WithFailedWhenContains(make([]string, 0, 4)))
 	}
 	if op.FailedOp != nil {
 		o = append(o, opoptions.WithFailedWhenContains(op.FailedOp))
@@ -557,7 +575,7 @@ func buildSession(env *Env, sc *Session) (*SessionRun, error) {
 					"privilege-levels":                levels,
 					"default-desired-privilege-level": sc.DefaultPriv,
 					"network-on-open": []map[string]interface{}{
-						{"operation": "channel.write", "input": sc.PlatLogin, "redacted": true},
+						{"operation": "channel.write", "input": platInput(sc.PlatLogin), "redacted": true},
 						{"operation": "channel.return"},
 						{"operation": "acquire-priv"},
 						{"operation": "driver.send-command", "command": "terminal width 511"},
